@@ -147,29 +147,36 @@ Fixpoint incr_from (prev : Z) (l : list Z) : bool :=
 Definition strictly_incr (l : list Z) : bool :=
   match l with [] => true | x :: r => incr_from x r end.
 
-(* distinctness through a binary trie over the bits of the value (depth <= 65, so the extracted
-   code needs no deep recursion): injective code Z -> positive, set of positives *)
-Definition zcode (z : Z) : positive :=
-  match z with Z0 => 1 | Zpos p => p~0 | Zneg p => p~1 end%positive.
+(* distinctness through a binary trie over the bits of the value, most significant bit first
+   (values handed out in one run share their high bits, so the trie stays small; depth <= 65,
+   so the extracted code needs no deep recursion).  Injective code Z -> list bool. *)
+Fixpoint bits_acc (p : positive) (acc : list bool) : list bool :=
+  match p with
+  | xH => acc
+  | xO q => bits_acc q (false :: acc)
+  | xI q => bits_acc q (true :: acc)
+  end.
+Definition zcode (z : Z) : list bool :=
+  match z with Z0 => [] | Zpos p => true :: bits_acc p [] | Zneg p => false :: bits_acc p [] end.
 
 Inductive ptrie := PLeaf | PNode (l : ptrie) (here : bool) (r : ptrie).
 
-Fixpoint pmem (p : positive) (t : ptrie) : bool :=
+Fixpoint pmem (k : list bool) (t : ptrie) : bool :=
   match t with
   | PLeaf => false
   | PNode l h r =>
-      match p with
-      | xH => h
-      | xO q => pmem q l
-      | xI q => pmem q r
+      match k with
+      | [] => h
+      | false :: q => pmem q l
+      | true :: q => pmem q r
       end
   end.
 
-Fixpoint padd (p : positive) (t : ptrie) : ptrie :=
-  match p with
-  | xH => match t with PLeaf => PNode PLeaf true PLeaf | PNode l _ r => PNode l true r end
-  | xO q => match t with PLeaf => PNode (padd q PLeaf) false PLeaf | PNode l h r => PNode (padd q l) h r end
-  | xI q => match t with PLeaf => PNode PLeaf false (padd q PLeaf) | PNode l h r => PNode l h (padd q r) end
+Fixpoint padd (k : list bool) (t : ptrie) : ptrie :=
+  match k with
+  | [] => match t with PLeaf => PNode PLeaf true PLeaf | PNode l _ r => PNode l true r end
+  | false :: q => match t with PLeaf => PNode (padd q PLeaf) false PLeaf | PNode l h r => PNode (padd q l) h r end
+  | true :: q => match t with PLeaf => PNode PLeaf false (padd q PLeaf) | PNode l h r => PNode l h (padd q r) end
   end.
 
 (* insert all values; [None] as soon as one is already present *)
